@@ -138,9 +138,11 @@ private:
 		std::int_fast16_t green = detail::clamp((( 298 * c - 100 * d - 208 * e + 128) >> 8), 0, 255);
 		std::int_fast16_t blue  = detail::clamp((( 298 * c + 516 * d + 128) >> 8), 0, 255);
 
-		get_color( dst,  red_t() )  = (dst_channel_t) red;
-		get_color( dst, green_t() ) = (dst_channel_t) green;
-		get_color( dst,  blue_t() ) = (dst_channel_t) blue;
+		// red, green and blue are 8 bit levels: a signed 8 bit destination takes this path as well
+		// and needs them mapped into its range (a plain cast stored 255 as -1)
+		get_color( dst,  red_t() )  = channel_convert<dst_channel_t>( static_cast<std::uint8_t>( red   ));
+		get_color( dst, green_t() ) = channel_convert<dst_channel_t>( static_cast<std::uint8_t>( green ));
+		get_color( dst,  blue_t() ) = channel_convert<dst_channel_t>( static_cast<std::uint8_t>( blue  ));
     }
 
 
